@@ -57,6 +57,17 @@ def is_tail_switch(node):
         for st in node.body for n in ast.walk(st))
 
 
+def _orient_tail(fn):
+    """Put the far-tail arm (the one using the erfcx ratio) first: `if Z >= c: ordinary else: tail` is `if Z < c: tail else: ordinary`."""
+    from ..canon import _negate
+    for n in ast.walk(fn):
+        if isinstance(n, ast.If) and n.orelse and not any(isinstance(x, ast.Call) and U(x.func) == "self.cdf_pdf_ratio" for st in n.body for x in ast.walk(st)) \
+                and any(isinstance(x, ast.Call) and U(x.func) == "self.cdf_pdf_ratio" for st in n.orelse for x in ast.walk(st)) \
+                and not (len(n.orelse) == 1 and isinstance(n.orelse[0], ast.If)):
+            n.test = ast.fix_missing_locations(ast.copy_location(_negate(n.test), n.test))
+            n.body, n.orelse = n.orelse, n.body
+
+
 def evaluate(prog, ci, fn, branch):
     ex = acq_expander(prog, ci, branch)
     env = {fn.args.args[1].arg: R.sym("x")}
@@ -101,6 +112,8 @@ def run(prog, tier):
         c, call = prog.method(ci.name, "__call__")
         c2, of = prog.method(ci.name, "opt_func")
         c3, og = prog.method(ci.name, "opt_func_gradient")
+        for m_ in (call, of, og):
+            _orient_tail(m_)
         has_branch = any(is_tail_switch(n) for n in ast.walk(call))
         # the erfcx form is only finite for non-positive Z: erfcx(-Z/sqrt 2) overflows as Z -> +inf
         for m_ in (call, of, og):
@@ -109,6 +122,10 @@ def run(prog, tier):
                     t = n.test
                     okg = (isinstance(t, ast.Compare) and len(t.ops) == 1 and isinstance(t.ops[0], (ast.Lt, ast.LtE))
                            and U(t.left) == "Z" and _neg_literal(t.comparators[0]))
+                    if not okg and isinstance(t, ast.UnaryOp) and isinstance(t.op, ast.Not) and isinstance(t.operand, ast.Compare) \
+                            and len(t.operand.ops) == 1 and isinstance(t.operand.ops[0], (ast.GtE, ast.Gt)):
+                        # `not (Z >= c)`: the tail arm taken exactly when Z < c (and for a NaN, which is NaN on either arm)
+                        okg = U(t.operand.left) == "Z" and _neg_literal(t.operand.comparators[0])
                     obs.append(struct_ob("tail-guard", qual(c, m_), okg,
                                          f"the erfcx-based far-tail arm must be guarded by `Z < c` with c <= 0 (erfcx(-Z/sqrt 2) overflows "
                                          f"for large positive Z, so the value would not be EI there); guard is `{U(t)}`",
@@ -149,7 +166,7 @@ def run(prog, tier):
     calls = [n for n in ast.walk(lb) if isinstance(n, ast.Call) and U(n.func) == "fmin_l_bfgs_b"]
     ok = len(calls) == 1 and (lambda b: b is not None and U(b) == "self.bounds")(get_kw(calls[0], "bounds")) \
         and U(get_kw(calls[0], "func", 0)) == "self.acquisition.opt_func_gradient" \
-        and (lambda a: a is not None and U(a) == "False")(get_kw(calls[0], "approx_grad"))
+        and (lambda a: a is None or U(a) in ("False", "0"))(get_kw(calls[0], "approx_grad"))      # absent = scipy's default, False
     obs.append(struct_ob("bounds-passed", qual(c, lb), ok,
                          f"L-BFGS-B must minimise opt_func_gradient (analytic gradient) with bounds=self.bounds: "
                          f"`{U(calls[0]) if calls else None}`", OPT, lb.lineno))
@@ -288,7 +305,7 @@ def run(prog, tier):
     ru = Resolver(ug, prog, ac.module, ac, inline_self=True)
     at_ = {U(s_.targets[0]): ru.term(s_.value, s_) for s_ in ug.body if isinstance(s_, ast.Assign) and len(s_.targets) == 1}
     oku = (U(at_.get("self.gp")) == g if "self.gp" in at_ else False) and "self.mu_max" in at_ \
-        and pmatch(at_["self.mu_max"], f"{g}.y.max()") is not None
+        and any(pmatch(at_["self.mu_max"], pt) is not None for pt in (f"{g}.y.max()", f"max({g}.y)", f"amax({g}.y)", f"{g}.y[{g}.y.argmax()]"))
     obs.append(struct_ob("refit-order", qual(ac, ug), oku,
                          f"update_gp must install the regressor and set the incumbent to the maximum of its data: "
                          f"{ {k: str(U(v)) for k, v in at_.items()} }", ACQ, ug.lineno))
